@@ -82,7 +82,7 @@ Proof. intros h. apply reload_id. Qed.
 
 (* closes in the middle of a history are invisible: the state equals that of the same history
    without them, wherever they are placed *)
-Definition is_reload (o : op) : bool := match o with OReload | OTick => true | _ => false end.
+Definition is_reload (o : op) : bool := match o with OReload | OTick | OWin _ => true | _ => false end.
 Lemma run_from_drop_reloads : forall h s,
   fold_left (step gob true) h s = fold_left (step gob true) (filter (fun o => negb (is_reload o)) h) s.
 Proof.
